@@ -343,6 +343,15 @@ func (f *frame) applyContract(callee *ssa.Function, con *Contract, args []Val, s
 			}
 			hs = append(hs, g.resolveHeapSpec(callee.Pkg.Pkg, m)...)
 		}
+		if hs != nil || len(con.Modifies) == 0 || con.Modifies[0] != "*" {
+			// ghost state (encoder/marshal/decoder/I-O sequences) is not nameable in a modifies clause: whatever
+			// the callee's inferred write set says it may advance is havocked as well
+			for _, h := range g.WriteSetOf(callee).Sorted() {
+				if strings.HasPrefix(h, "G_ghost_") {
+					hs = append(hs, h)
+				}
+			}
+		}
 		f.havocHeaps(st, hs)
 	} else {
 		ws := g.WriteSetOf(callee)
